@@ -51,7 +51,7 @@ def rand_string(rng):
     return rng.choice(["(" * rng.randrange(1, 1500), "a{%d}" % 10 ** rng.randrange(1, 30), "a{%s}" % ("9" * rng.randrange(1, 6000)),
                        "a{1,%s}" % ("7" * rng.randrange(4000, 5000)), "(?P<a>x)(?(%s)a|b)" % ("9" * rng.randrange(1, 5000)), "[" * rng.randrange(1, 50) + "a",
                        "%d:%d:%d" % (10 ** rng.randrange(1, 25), rng.randrange(0, 70), rng.randrange(0, 70)), "%d:%d" % (rng.randrange(0, 30), rng.randrange(0, 70)),
-                       "%02d:%02d:%02d" % (rng.randrange(0, 30), rng.randrange(0, 70), rng.randrange(0, 70)), "1:2:3:4", ":".join(["9" * rng.randrange(1, 5000)] * 3),
+                       "%02d:%02d:%02d" % (rng.randrange(0, 30), rng.randrange(0, 70), rng.randrange(0, 70)), "1:2:3:4", "9" * rng.choice([3, 12, 25, 4400]) + ":" + "9" * rng.choice([1, 2, 12]) + ":00",
                        "1." * rng.randrange(1, 600), ":" * rng.randrange(1, 40), "9" * rng.randrange(1, 4000) + "-01-01",
                        "%d.%d.%d.%d" % tuple(rng.randrange(0, 400) for _ in range(4)),
                        ":".join("%x" % rng.randrange(0, 70000) for _ in range(rng.randrange(1, 10))),
